@@ -301,6 +301,64 @@ impl World {
         }
     }
 
+    /// `arena::rootless_mutate`: a collector context that exists for the duration of one callback.
+    /// No root, no collection calls: everything allocated is destructed and released when the call
+    /// returns (a permitted destructor context, C03), exactly once and completely (C04).
+    pub fn ev_rootless(&mut self, a: Aid, root_set: Id, ops: &mut Vec<Op>, g: GenRef<'_>) {
+        let ai = a as usize;
+        if ai != self.arenas.len() || ai >= 8 || self.sh.objs.contains_key(&root_set) || self.sh.objs.contains_key(&(root_set + 1)) {
+            return;
+        }
+        self.arenas.push(None);
+        self.sh.arenas.push(None);
+        self.rt.push(ArenaRt::default());
+        self.sh.arenas[ai] = Some(ArenaShadow {
+            alive: true,
+            root_is_b: false,
+            root_strong: vec![None; ROOT_STRONG],
+            root_weak: vec![None; ROOT_WEAK],
+            root_set_inner: root_set,
+            root_zst: None,
+            resurrected: BTreeSet::new(),
+            pacing: PacingSpec::default_spec(),
+        });
+        self.sh.next_id = self.sh.next_id.max(root_set + 2);
+        self.stats.callbacks += 1;
+        self.stats.cell("rootless".into());
+        let recorded = std::mem::take(ops);
+        let mut out = vec![];
+        let ctxg = seam::enter(seam::CTX_CALLBACK, a as u16);
+        let mut retained: Option<gc_arena::metrics::Metrics> = None;
+        let res = {
+            let mut src = Self::src_for(&recorded, &mut out, g);
+            let me = &mut *self;
+            let keep = &mut retained;
+            guarded(|| {
+                let _t = seam::track();
+                gc_arena::arena::rootless_mutate(|mc| {
+                    let _p = seam::pause();
+                    *keep = Some(mc.metrics().clone());
+                    // from the return of the body on, the context is being torn down
+                    static_owned_body(me, a, mc, Phase::Sleeping, true, &mut src, true);
+                })
+            })
+        };
+        drop(ctxg);
+        *ops = if out.is_empty() { recorded } else { out };
+        let empty = BTreeSet::new();
+        self.process_events(&empty, &empty);
+        match res {
+            Caught::Ok(()) | Caught::Injected | Caught::Stopped => {
+                self.rt[ai].retained = retained;
+                self.sigmix(0xA7);
+                if self.ok() {
+                    self.account_dead_arena(a, false);
+                }
+            }
+            Caught::Unexpected(m) => self.violate("C10.panic", format!("rootless_mutate panicked: {m}")),
+        }
+    }
+
     pub fn ev_drop_arena(&mut self, a: Aid) {
         if !self.sh.arena_alive(a) || self.arenas[a as usize].is_none() {
             return;
